@@ -32,12 +32,24 @@ CLAIMED = {
  "C08": dict(tech=E, ref="4/C08",
    text="Model checking, explicit-state shape: same search as C07 over universes with all mixes of full/partial flags (complete depth-1 trees over base cells 0 and 11, depth-2 chain trees, degenerate deep shapes): all ordered pairs x {and, or, xor}, not on every state, closure layers; every transition compared with the three-valued pointwise tables (min, max, documented xor table, not swaps absent/full).",
    note="Trusted: three-valued range model R4. Shapes outside the universes are outside the bound."),
+ "C09": dict(tech=E, ref="4/C09",
+   text="Model checking, explicit-state + stateless shapes: (a) every BMOC returned by ~4900 (quick) / ~7400 (thorough) cone / elliptical-cone / polygon queries over small alphabets (depth <= 3 / 5, all variants incl. delta_depth) ; (b) breadth-first search under not/and/or/xor from the distinct coverage outputs (layer 1 all ordered pairs; later layers every new result paired both ways with every initial output) and the full closure of the complete depth-1 BMOC universe; (c) outputs of the fixed-depth builder on runs / unordered / duplicated pushes x 6 capacities x 2 flags and of the unsafe builder (to_bmoc, from_unordered, packing, lower depth) on every valid sequence of a depth-2 universe. On every such value: depth <= depth_max, hash < 12*4^depth, strictly increasing non-overlapping entries; into_iter, flat_iter, flat_iter_cell (hash, depth, flag, raw value), to_flat_array, deep_size, size_hints (at every step) and to_ranges (sorted, disjoint, non-adjacent) all describe the same deepest cells.",
+   note="Trusted: validator and view expansion in bm.rs (independent decoding of raw values). Flattened views expanded below 200000 deepest cells."),
  "C10": dict(tech=S, ref="4/C10",
    text="Model checking over complete index sets: for every depth 0..10 (quick) / 0..12 (thorough) EVERY RING index r and every NESTED cell: from_ring(r) is in range, its lattice centre equals the exact integer centre that the RING order (latitude descending, longitude ascending, 4i cells in polar ring i) assigns to rank r, to_ring inverts it, to_ring(h) equals the rank of the centre of h and from_ring inverts it (=> bijection outright on these depths); RING-scheme and NESTED centres agree to 4e-15. Depths up to 29: ~900 rings per depth (first rings, powers of two +-1, cap/transition/equator classes, 800 spread rings) x first/last/quarter-boundary indices +-2 and border-class NESTED cells; thorough adds EVERY polar ring boundary (north and south) of depths 26 and 29.",
    note="Trusted: exact integer RING model R3 (u128, exact integer square root), self-checked against the lattice model R2 for nside 1..16."),
  "C11": dict(tech=S, ref="4/C11",
    text="Model checking, stateless shape: for EVERY nside in 1..40 (quick) / 1..160 (thorough) every cell: projected centre = exact R3 lattice centre (=> order, 4i / 4 nside ring cardinalities), hash(centre) = cell, sph_coo at 5 offsets; 11 lattice points per cell (vertices, edge mid-points, centre, interior; 3x3 ulp nudges for nside <= 16) through hash / hash_with_dxdy / sph_coo (range, containment in the R3 diamond, offsets in [0,1], inverse); 33 large nside values up to 2^29 (primes, odd, 2^k+-1) on ring-boundary class cells; out-of-range hashes and latitudes rejected. Positions on the polar-cap seams matching the listed known finding KF-2 are reported as KNOWN-FINDING only, for ring::hash / hash_with_dxdy only.",
    note="Trusted: R3 and R1. nside values not listed, and positions away from the enumerated lattice points, are outside the bound."),
+ "C12": dict(tech=S, ref="4/C12",
+   text="Model checking, stateless shape: every (polygon, depth 0..6 / 0..9, approx / exact mode) with polygons = regular n-gons (convex), star-shaped variants, thin triangles and kites in every cyclic vertex order, both windings, 2-3 rotations, 7 circumradii 1e-4..0.79 around 15 / 22 centres (lon ~ 0 / 2pi crossings, seams, transition parallels, polar caps short of the poles): result well formed; cell of every vertex covered; every cell flagged full of a convex polygon has its 4 vertices and centre inside (orientation-anchored great-circle test, 1e-9 margin); tightness for circumradius < 0.3; Polygon::contains against the geometric definition on 326 probes per convex polygon (1e-7 margin from the edge circles).",
+   note="Trusted: R1/R2/R6. No no-miss claim for polygons; polygons reaching a pole and non star-shaped ones are excluded as in the statement."),
+ "C13": dict(tech=S, ref="4/C13",
+   text="Model checking, stateless shape: every (depth 0..3 / 0..5, delta_depth 0..1 / 0..2, centre of the cone alphabet incl. poles and seams, semi-major axis from 8 fixed values + 5 factors around each start-depth limit, b/a in {1, 0.5, 0.1}, 4 position angles): well formed, centre cell covered, every cell centre within a + 2 x reference cell size, circular case = the C05 witness oracle over EVERY cell of the depth, a >= pi/2 rejected. Misses matching KF-1 are reported as KNOWN-FINDING only.",
+   note="Trusted: as C05. No no-miss claim for eccentric ellipses (the property makes none)."),
+ "C14": dict(tech=S, ref="4/C14",
+   text="Model checking, stateless shape: every cell of depths 0..3 / 0..5 x delta_depth 1..4 / 1..6 and border-class cells of depths to 28 x delta_depth 1..3 (incl. depth + delta = 29), through Layer methods and free functions: internal_edge equals the exact closed walk S->E->N->W of the lattice model, internal_edge_sorted its sorted form, 4 corner helpers x 2 forms, 4 side helpers x 3 forms; external_edge = the set of deeper cells outside and adjacent (lattice adjacency), no duplicates, sorted variant; external_edge_struct files each cell under the side (shares 2 canonical vertices with it) or corner (shares only that vertex) it faces.",
+   note="Trusted: lattice model R2. delta_depth = 0 is outside the statement's domain."),
  "C15": dict(tech=E, ref="4/C15",
    text="Model checking over push histories: ALL push sequences of length <= 5 over a 13-cell (quick) / 20-cell (thorough) alphabet of aligned runs, parent-boundary crossings and last cells x 7 buffer capacities (1..100, forcing many intermediate merges) x both flags; consecutive runs of every length 1..70/300 from aligned and unaligned starts in 6 push orders x 12 capacities; all subsets of depth-0 cells and of 11 depth-29 cells; and ALL valid entry sequences of a depth-2 universe (with partial flags and unpacked shapes) through to_bmoc_packing / to_lower_depth_bmoc(_packing) for every lower depth. Oracle: set model of the pushed cells / three-valued range model.",
    note="Trusted: range model R4. Longer histories, other cells and capacities are outside the bound (the default capacity of 10^7 is represented by capacity 100 and 1000 > history length)."),
@@ -47,6 +59,9 @@ CLAIMED = {
  "C18": dict(tech=S, ref="4/C18",
    text="Model checking over finite domains: for each z-order implementation the crate can select (get_zoc per depth, LARGE LUT/XOR/BMI) in two builds (with and without BMI2): all (i,j) < 2^d for d <= 8; medium class structured (quick) / all 2^32 pairs at depth 16 and all pairs at depths 9..12 (thorough); large class byte-wise + 1/2-bit patterns squared at every depth 17..29; ij2h, i02h, oj2h, h2ij/ij2i/ij2j against a loop reference. uniq/uniq_ivoa and inverses for all hashes of depth <= 8 / 11 and class hashes to depth 29; depth > 29 rejected.",
    note="Trusted: reference bit interleaving loop; injectivity follows from the checked left inverses. BMI2 leg skipped (and reported) if the CPU lacks it."),
+ "C19": dict(tech=S, ref="4/C19",
+   text="Model checking, stateless shape: every cell of depths 0..3 / 0..5 and border-class cells (incl. all cells next to the 8 three-cell points) of every deeper depth x 7x7 in-cell offsets (incl. the quadrant lines 0.5 +- 1e-4), and all plane-lattice / border-class positions with ulp nudges and turned longitudes x 30 depths: four finite weights >= 0 summing to 1, a containing cell present, all cells = that cell or lattice neighbours of it, weight 1 at the centre, weighted mean of the centres = the position when the four cells share a base cell, a weight-0 entry for a missing corner.",
+   note="Trusted: R1/R2. Tolerances 1e-9 + 64 eps nside (the position is only known to that many cells)."),
 }
 props = [json.loads(l) for l in open(os.path.join(V, "properties.jsonl"))]
 m = {
